@@ -159,6 +159,13 @@ fn run_life(pool: &dyn Pool, nf: usize, life: &Value) {
                     }
                 }
                 "probe" => probe(pool, nf, true),
+                "mkptr" => {
+                    if pool.name().starts_with("rust") {
+                        for f in 1..=nf {
+                            pool::make_ptr(f);
+                        }
+                    }
+                }
                 "call" => one_call(pool, i(st, "f") as usize, st.get("match").and_then(|x| x.as_bool()).unwrap_or(true)),
                 "call_unwind" => {
                     // a call whose panic (rejected arguments / over-called) is NOT caught by the
